@@ -206,6 +206,13 @@ def held_objects(tier, rng):
                     d = rng.choice([story_replace(70 + step, sid, [new]),
                                     story_send(70 + step, sid, body=[p('resent'), E('storyItem', E('itemID', text='s%d' % step))],
                                                post=[payload(duration=rng.choice(DURS))])])
+                if rng.random() < 0.15:
+                    # the whole content re-sent (same and new story IDs), or the running-order metadata replaced: whatever the
+                    # object remembered about its content must not survive this
+                    from docs import ro_replace, metadata_replace
+                    d = rng.choice([ro_replace(70 + step, [rich_story(rng, x) for x in (sids[:2] + ['RR%d_%d' % (h, step)])]),
+                                    ro_replace(70 + step, [rich_story(rng, 'RS%d_%d' % (h, step))]),
+                                    metadata_replace(70 + step, [E('roSlug', text='replaced %d' % step), E('roEdStart', text=rng.choice(TIMES[:4]))])])
                 t = to_text(d)
                 msgs.append(t)
                 try:
